@@ -46,8 +46,10 @@ def isRel : Ord → Bool
   | .release | .acqrel | .seqcst => true
   | _ => false
 
-/-- the sites of rwlock.rs that operate on the `state` word -/
-def stateSites : List Site := rwlockSites.filter (fun s => s.loc == "state" && s.role != "wait" && s.role != "wake")
+/-- the RMW sites of rwlock.rs on the lock word (the extractor gives the roles `acquire` / `release` / `keep` /
+`both` only to RMWs of the lock word, which it identifies by what is done to it, not by its field name) -/
+def stateSites : List Site :=
+  rwlockSites.filter (fun s => s.role == "acquire" || s.role == "release" || s.role == "keep" || s.role == "both")
 def needsAcq (s : Site) : Bool := s.role == "acquire" || s.role == "both"
 def needsRel (s : Site) : Bool := s.role == "release" || s.role == "both"
 def succOrd (s : Site) : Ord := s.ords.getD 0 .unknown
